@@ -456,6 +456,21 @@ inline Op opParamCopyOfStored(const std::string& srcGroup, const std::string& sr
     };
     return o;
 }
+// read-modify-write of one slot: the caller takes a (shallow) copy of stored frame fi, gives it NEW points or NEW analogs (or leaves it as it is), and stores it back at the same index.
+// The copy ends up in register r: from then on it is the caller's own frame and must be independent of the stored one.
+inline Op opTakeEditPutBack(int r, size_t fi, const std::string& what, int vs) {
+    Op o; o.name = "R" + std::to_string(r) + "=copy(stored[" + std::to_string(fi) + "])," + what + ",frame(R" + std::to_string(r) + "," + std::to_string(fi) + ")"; o.cls = "frame(copy-of-stored)";
+    o.enabled = [fi, what](const World&, const WSnap& s) { if (fi >= s.o.frames.size() || s.o.frames[fi].empty()) return false; if (what == "newpts" && s.o.frames[fi].pts.empty()) return false; if (what == "newan" && s.o.frames[fi].subs.empty()) return false; return true; };
+    o.apply = [r, fi, what, vs](World& w, const WSnap& s, CallInfo& ci) {
+        ci.kind = K_FRAME; ci.reg = r; ci.dev = "copy-of-stored/" + what; ci.append = false; ci.idx = fi; w.heldPts[r] = nullptr;
+        Frame g(w.c->data().frame(fi)); Shape sh; for (auto& p : s.o.frames[fi].pts) sh.pts.push_back(p.name); if (!s.o.frames[fi].subs.empty()) { for (auto& c : s.o.frames[fi].subs[0]) sh.chans.push_back(c.name); sh.nsub = s.o.frames[fi].subs.size(); }
+        Frame fresh = buildFrame(sh, vs); FrSnap want = s.o.frames[fi]; FrSnap in = intendedFrame(sh, vs);
+        if (what == "newpts") { g.add(fresh.points()); want.pts = in.pts; } else if (what == "newan") { g.add(fresh.analogs()); want.subs = in.subs; }
+        ci.given = want; w.R[r] = g; w.Rset[r] = true;
+        w.c->frame(w.R[r], fi);
+    };
+    return o;
+}
 // the caller hands a frame that lives INSIDE the object (a reference to a stored frame) back to the object
 inline Op opSubmitStored(size_t fi, const std::string& tgt, const Limits& L) {
     Op o; o.name = "frame(stored[" + std::to_string(fi) + "]," + tgt + ")"; o.cls = "frame(self)";
